@@ -1550,11 +1550,11 @@ def _drive_pptx_namelist(ctx, key):
     class's own accessor get_comment_root(slide number) and the other cached roots"""
     import importlib
     n = ctx.params.get("n", 2)
-    if ctx.concrete:
-        lens = ctx.params.get("lens", [25, 4])
-    else:
-        consts = _loop_string_constants(key)
-        lens = [sum(len(c) for c in consts) + 1, 4] + ([21] if ctx.params.get("slide_length_names") else [])
+    try:                                    # the same lengths in symbolic runs and in replay (the index is the recorded input)
+        longest = sum(len(c) for c in _loop_string_constants(key)) + 1
+    except Exception:
+        longest = 25
+    lens = ctx.params.get("lens") or [longest, 4] + ([21] if ctx.params.get("slide_length_names") else [])
     names = []
     for i in range(n):
         ln = lens[ctx.pick("member%d_length" % i, len(lens))]
@@ -2775,7 +2775,7 @@ def _json_difference(a, b):
 
 
 def _history_steps(ctx):
-    """the sequence of (format, ink, variant, path override) drawn for this path"""
+    """the sequence drawn for this path: ([(format, ink number, variant)], [(path, bytes)])"""
     if "formats" in ctx.params:
         group = _format_group(ctx.params["formats"])
         fmt = group[ctx.pick("format", len(group))]
@@ -2806,7 +2806,8 @@ def _history_steps(ctx):
         docs[1] = (docs[0][0], docs[1][1])
     if ctx.params.get("L", 3) >= 3:                 # the first document once more ...
         steps.append(steps[0])
-        docs.append(docs[0] if not alias & 2 else ("/elsewhere/copy-of-" + docs[0][0].rsplit("/", 1)[-1], docs[0][1]))   # ... or its bytes under another path
+        docs.append(docs[0] if not alias & 2 else            # ... or its bytes under another path
+                    ("/elsewhere/copy-of-" + docs[0][0].rsplit("/", 1)[-1], docs[0][1]))
     return steps, docs
 
 
@@ -3133,7 +3134,9 @@ KERNELS = [
            choices=["which member of the package is missing in the varied document (every member of the generated DOCX / PPTX / XLSX / "
                     "ODT / ODP / ODS / EPUB / ZIP package: parts, relationship parts, media, manifest, core properties, styles, header, "
                     "footer, notes, comments ...), and whether the elements that refer to it (Relationship, content-type Override, "
-                    "manifest entry, OPF item) are removed too or left dangling",
+                    "manifest entry, OPF item) are removed too or left dangling; flat formats (txt, md, html, rtf, eml, mbox, mhtml, "
+                    "pdf, tar): which optional element is left out (title, table, header, footnote, attachment, body part, document "
+                    "information, archive member ...) or which other encoding the text is in",
                     "whether the varied document comes before or after the full one (thorough: both documents range over the family)",
                     "path aliasing for the pair of full documents: other bytes under the first document's path; the first "
                     "document's bytes under another path at the third step",
@@ -3145,6 +3148,11 @@ KERNELS = [
                         "earlier document under such a key is visible in a later result",
                         "reference for every step: canonical JSON (sort_keys) of to_json() of the public reader's results - or the "
                         "exception type and message - for the same (bytes, path) in a process of its own",
+                        "the results of all steps stay alive until the end of the sequence and are serialised once more then: "
+                        "to_json() of an earlier result must not change because other documents were extracted afterwards",
+                        "symbolic runs extract all sequences a part's choices can draw ahead of the walk through the choices, in "
+                        "batches of forks side by side; replays (counterexamples, sampled passing paths) run their sequence and its "
+                        "references anew",
                         "formats without a writer here (doc, xls, ppt, odg, odf, real-world pdf) are driven with the two smallest "
                         "test resources of the repository as documents A and B",
                         "state-site part: an AST scan locates values that outlive one extraction and are written while the library "
